@@ -356,7 +356,8 @@ def _case_qr(ctx, case, model_out):
         impl = "error"
         err = f"{type(e).__name__}: {str(e)[:120]}"
     mo = model_out if model_out == "error" else " ".join(model_out.split(" ")[:3])
-    if impl != mo:
+    if impl != mo and not keep_empty:
+        # KEEP with an empty second side is excluded by the property: whether the code rejects it is not compared
         ctx.corr_fail(case, f"tensor_qr_decomposition shape={sh} q_legs={a} r_legs={b} {mode}: impl [{impl}] model [{mo}]")
     if impl == "error":
         if keep_empty:
